@@ -71,13 +71,14 @@ VARIANTS = [
     # label, vc_text keywords, solver, CPU seconds; ordered by how many obligations each stage closed per second in practice
     ("ground-defs", dict(defs="ground", fuel=None), "z3", 3),
     ("light axioms", dict(axioms="light"), "z3", 5),
+    ("light axioms, ground-defs, products abstracted", dict(axioms="light", defs="ground", fuel=None, nl="abstract"), "z3", 6),
+    ("ground-defs, products abstracted", dict(defs="ground", fuel=None, nl="abstract"), "cvc5", 8),
     ("light axioms", dict(axioms="light"), "cvc5", 8),
     ("light axioms, sequences abstracted", dict(axioms="light", seq="abstract"), "z3", 8),
     ("light axioms, sequences abstracted", dict(axioms="light", seq="abstract"), "cvc5", 8),
     ("focus, ground-defs, sequences abstracted", dict(axioms="light", focus=True, defs="ground", fuel=3, seq="abstract"), "z3", 6),
     ("focus", dict(axioms="light", focus=True), "z3", 6),
     ("ground-defs, products abstracted", dict(defs="ground", fuel=None, nl="abstract"), "z3", 20),
-    ("ground-defs, products abstracted", dict(defs="ground", fuel=None, nl="abstract"), "cvc5", 8),
     ("light axioms, ground-defs, sequences abstracted", dict(axioms="light", defs="ground", fuel=3, seq="abstract"), "z3", 6),
     ("full", dict(), "z3", 20),
     ("full", dict(), "cvc5", 20),
